@@ -1,0 +1,56 @@
+//go:build verif
+
+package goja
+
+import "fmt"
+
+// White-box accessors for the C13 (Go<->JS bridge) verification harness. Add-only, build tag "verif".
+
+// VerifC13SelfType returns the implementation type of an Object ("%T" of its self), or the
+// dynamic type of a primitive value.
+func VerifC13SelfType(v Value) string {
+	if o, ok := v.(*Object); ok {
+		return fmt.Sprintf("%T", o.self)
+	}
+	return fmt.Sprintf("%T", v)
+}
+
+func verifC13ArrayReflect(v Value) *objectGoArrayReflect {
+	o, ok := v.(*Object)
+	if !ok {
+		return nil
+	}
+	switch a := o.self.(type) {
+	case *objectGoArrayReflect:
+		return a
+	case *objectGoSliceReflect:
+		return &a.objectGoArrayReflect
+	}
+	return nil
+}
+
+// VerifC13Cache returns, for a reflect-based Go array/slice wrapper, the element wrapper objects currently
+// held in its valueCache for indices below the current length (nil where none is cached).
+func VerifC13Cache(v Value) []*Object {
+	a := verifC13ArrayReflect(v)
+	if a == nil {
+		return nil
+	}
+	n := a.fieldsValue.Len()
+	res := make([]*Object, n)
+	for i := 0; i < n; i++ {
+		if w := a.valueCache.get(i); w != nil {
+			if o, ok := w.esValue().(*Object); ok {
+				res[i] = o
+			}
+		}
+	}
+	return res
+}
+
+// VerifC13Swap performs one sort swap (sortable.swap) on a wrapper, as Array.prototype.sort does in place.
+func VerifC13Swap(v Value, i, j int) {
+	if o, ok := v.(*Object); ok {
+		o.self.swap(i, j)
+	}
+}
